@@ -2,6 +2,7 @@ package mon
 
 import (
 	"fmt"
+	"strings"
 	"time"
 
 	"verifharness/chain"
@@ -28,6 +29,7 @@ func init() {
 		Run: func(c *fw.Case) {
 			if c.Index%16 == 15 {
 				c05GenesisProbe(c)
+				c.KeepViolations("C05/")
 				return
 			}
 			e := runVestScenario(c, "C05")
@@ -48,6 +50,11 @@ func init() {
 		Cases:         func(t string) int { return tierN(t, 256, 3000) },
 		MinNontrivial: func(t string) int { return tierN(t, 40, 600) },
 		Run: func(c *fw.Case) {
+			if c.Index%16 == 15 {
+				c05GenesisProbe(c)
+				c.KeepViolations("C06/")
+				return
+			}
 			e := runVestScenario(c, "C06")
 			if e == nil {
 				return
@@ -145,6 +152,69 @@ func c05GenesisProbe(c *fw.Case) {
 				c.Count("unbacked_genesis_refused", 1)
 			}
 		}
+	}
+	// --- owners spelled in upper-case bech32 in the genesis file (a valid spelling) ---
+	upper := strings.ToUpper(owner.Bech())
+	lockEnd := gen.Epoch.Add(time.Duration(1+r.Intn(100)) * time.Hour)
+	amtA, amtB := int64(1000+r.Intn(100000)), int64(1000+r.Intn(100000))
+	pool := func(name string, amt int64) *vesttypes.VestingPool {
+		return &vesttypes.VestingPool{Name: name, VestingType: "vt", LockStart: gen.Epoch, LockEnd: lockEnd, InitiallyLocked: sdk.NewInt(amt), Withdrawn: sdk.ZeroInt(), Sent: sdk.ZeroInt()}
+	}
+	for _, twice := range []bool{false, true} {
+		vg := &vesttypes.GenesisState{Params: vesttypes.Params{Denom: vDenom}, VestingTypes: vts,
+			AccountVestingPools: []*vesttypes.AccountVestingPools{{Owner: upper, VestingPools: []*vesttypes.VestingPool{pool("up", amtA)}}}}
+		total := amtA
+		if twice {
+			// the same account listed a second time under its other spelling
+			vg.AccountVestingPools = append(vg.AccountVestingPools, &vesttypes.AccountVestingPools{Owner: owner.Bech(), VestingPools: []*vesttypes.VestingPool{pool("low", amtB)}})
+			total += amtB
+		}
+		if vg.Validate() != nil {
+			c.Count("two_spellings_genesis_not_valid", 1)
+			continue
+		}
+		n, err := chain.NewNode(chain.GenesisSpec{Time: gen.Epoch, Accounts: accs, Vesting: vg})
+		if err != nil {
+			if p := asPanic(err); p != nil {
+				c.ViolateD("C05/initchain-panic", p.Stack, "InitChain panicked for a valid genesis with an upper-case owner: %s", short(p.Value, 300))
+			}
+			continue
+		}
+		c.Count("genesis_probes", 1)
+		backed := func(when string) {
+			sum := sdk.ZeroInt()
+			for _, avp := range n.App.CfevestingKeeper.GetAllAccountVestingPools(n.Ctx()) {
+				for _, p := range avp.VestingPools {
+					sum = sum.Add(p.GetCurrentlyLocked())
+				}
+			}
+			bal := n.App.BankKeeper.GetBalance(n.Ctx(), authtypes.NewModuleAddress(vesttypes.ModuleName), vDenom).Amount
+			if !bal.Equal(sum) {
+				c.ViolateD("C05/module-balance-vs-pools", map[string]string{"when": when, "owner_listed_twice": fmt.Sprint(twice)}, "%s (owner spelled in upper case in the genesis, listed twice: %v): vesting module account holds %s but pools lock %s", when, twice, bal, sum)
+			}
+		}
+		backed("after InitChain")
+		// at the lock end the owner - writing its address the way the genesis does - is paid
+		// exactly the matured remainder, and the pool query agrees
+		if _, err := n.BeginBlock(lockEnd); err != nil {
+			continue
+		}
+		before := n.App.BankKeeper.GetBalance(n.Ctx(), owner.Addr, vDenom).Amount
+		q, qerr := n.App.CfevestingKeeper.VestingPools(sdk.WrapSDKContext(n.Ctx()), &vesttypes.QueryVestingPoolsRequest{Owner: upper})
+		res, derr := n.Deliver(owner, &vesttypes.MsgWithdrawAllAvailable{Owner: upper})
+		if derr == nil {
+			after := n.App.BankKeeper.GetBalance(n.Ctx(), owner.Addr, vDenom).Amount
+			paid := after.Sub(before)
+			if res.Code != 0 || !paid.Equal(sdk.NewInt(amtA)) {
+				c.ViolateD("C06/genesis-owner-not-paid", map[string]string{"log": short(res.Log, 300), "owner_listed_twice": fmt.Sprint(twice)}, "withdraw-all at the lock end by a genesis owner spelled in upper case paid %s (code %d), the matured remainder is %d", paid, res.Code, amtA)
+			}
+			if qerr != nil || q == nil || len(q.VestingPools) != 1 || q.VestingPools[0].Withdrawable != fmt.Sprint(amtA) {
+				c.ViolateD("C06/query-vs-withdrawal", map[string]string{"err": fmt.Sprint(qerr)}, "the pool query for a genesis owner spelled in upper case does not report the %d withdrawable coins that a withdrawal in the same block pays (err %v)", amtA, qerr)
+			}
+			c.Count("upper_case_genesis_owner_withdrawals", 1)
+		}
+		backed("after the withdrawal")
+		n.EndBlock()
 	}
 	c.Describe("genesis-probe", c.Index, d)
 	c.Nontrivial(true)
